@@ -1,6 +1,7 @@
 package main
 
 import (
+	"unicode"
 	"fmt"
 	"time"
 
@@ -121,8 +122,38 @@ func legSem(c *Ctx, rtl bool) {
 		}
 		var inputs [][]rune
 		ml := maxLen
-		if i < len(corpus) {
-			ml = maxLen + 1 // the directed shapes get one more rune (a loop taken past its minimum and still a tail to match)
+		directed := i < len(corpus)
+		if directed {
+			// the directed shapes get one more rune (a loop taken past its minimum and still a tail to match) over a
+			// smaller alphabet (three of the pattern's letters, or two and the newline when it has an anchor), and
+			// EVERY such string is run: nothing is sampled away
+			ml = maxLen + 1
+			hasAnchor := false
+			ast.walk(func(n *Ast) {
+				if n.Kind == AAnchor {
+					hasAnchor = true
+				}
+			})
+			var small []rune
+			for _, ch := range ast.alphabet(o) {
+				// (the alphabet lists both cases of every letter; without IgnoreCase the other case is just a foreign rune)
+				if !o.I && unicode.IsUpper(ch) && containsRune(ast.alphabet(o), unicode.ToLower(ch)) && !astHasLit(ast, ch) {
+					continue
+				}
+				small = append(small, ch)
+			}
+			if hasAnchor {
+				if len(small) > 2 {
+					small = small[:2]
+				}
+				small = append(small, '\n')
+			} else if len(small) > 3 {
+				small = small[:3]
+			}
+			for len(small) < 3 {
+				small = append(small, rune('Z'-len(small)))
+			}
+			alpha = small
 		}
 		allStrings(alpha, ml, func(s []rune) { inputs = append(inputs, s) })
 		for k := 0; k < 12; k++ {
@@ -132,7 +163,7 @@ func legSem(c *Ctx, rtl bool) {
 		budget := c.N(160, 600)
 		k := 0
 		for idx, in := range inputs {
-			if idx > 40 && len(inputs) > budget && c.Rng.Intn(len(inputs)) >= budget {
+			if !directed && idx > 40 && len(inputs) > budget && c.Rng.Intn(len(inputs)) >= budget {
 				continue
 			}
 			for start := 0; start <= len(in); start++ {
@@ -165,6 +196,16 @@ func legSem(c *Ctx, rtl bool) {
 	for k := ALit; k <= AOptGroup; k++ {
 		c.Gate(fmt.Sprintf("AST kind %d generated", k), modes[fmt.Sprintf("kind%d", k)] > 0)
 	}
+}
+
+func astHasLit(a *Ast, ch rune) bool {
+	found := false
+	a.walk(func(n *Ast) {
+		if n.Kind == ALit && n.Ch == ch {
+			found = true
+		}
+	})
+	return found
 }
 
 // safeFind: the engine call under recover (a run-time fault of the engine is a reported violation, not a crash of the leg)
